@@ -283,11 +283,28 @@ func (rw *rewriter) file(f *ast.File) {
 				}
 			}
 		}
-		if p, t, m := rw.methodOf(c); p == "golang.org/x/sync/errgroup" && t == "Group" && (m == "Go" || m == "TryGo") {
-			rw.refuse(c, "errgroup goroutines are not under the simulator's control")
+		// goroutines started by errgroup are adopted by the simulator (a group
+		// with a limit blocks inside Go, outside the simulator's view: refused)
+		if p, t, m := rw.methodOf(c); p == "golang.org/x/sync/errgroup" && t == "Group" {
+			switch m {
+			case "Go", "TryGo":
+				if len(c.Args) == 1 {
+					c.Args[0] = call(rt("Adopted"), rw.site(c, "errgroup"), c.Args[0])
+				}
+			case "SetLimit":
+				rw.refuse(c, "errgroup.SetLimit makes Go block outside the simulator's control")
+			}
 		}
-		if p, name := rw.funcOf(c); p == "time" && (name == "NewTimer" || name == "NewTicker" || name == "Tick") {
-			rw.refuse(c, p+"."+name+" is not supported by the simulator")
+		// timers and tickers are made known to the scheduler
+		if p, name := rw.funcOf(c); p == "time" && (name == "NewTimer" || name == "NewTicker" || name == "Tick") && len(c.Args) == 1 {
+			c.Fun = rt(name)
+			rw.used = true
+		}
+		if p, t, m := rw.methodOf(c); p == "time" && ((t == "Timer" && m == "Reset") || (t == "Ticker" && (m == "Stop" || m == "Reset"))) {
+			x := c.Fun.(*ast.SelectorExpr).X
+			c.Fun = rt(t + m)
+			c.Args = append([]ast.Expr{x}, c.Args...)
+			rw.used = true
 		}
 		// callbacks run by the runtime in goroutines of their own are adopted by
 		// the simulator (they park before running the callback)
@@ -374,6 +391,8 @@ func (rw *rewriter) blockingCall(c *ast.CallExpr) string {
 		return "wgwait"
 	case p == "golang.org/x/sync/semaphore" && t == "Weighted" && m == "Acquire":
 		return "semacquire"
+	case p == "golang.org/x/sync/errgroup" && t == "Group" && m == "Wait":
+		return "egwait"
 	}
 	if fp, name := rw.funcOf(c); fp == "time" && name == "Sleep" && len(c.Args) == 1 {
 		c.Fun = rt("Sleep")
